@@ -17,7 +17,7 @@ RULE = ("history = one cell space (OrthogonalMooreGrid / OrthogonalVonNeumannGri
         "VoronoiGrid; torus flag; capacity None / 1 / 2 / 3, per cell on Voronoi) + up to 8 agents (CellAgent, FixedAgent, "
         "Grid2DMovingAgent) + up to 30 operations: cell assignment (incl. None, the same cell, a full cell), move_to, "
         "move_relative (existing and missing directions), Grid2DMovingAgent.move(name, k) (k from -1 to beyond the border, "
-        "names in mixed case and invalid), remove (also repeated), select_random_empty_cell under both strategies and "
+        "names in mixed case and invalid), remove (also repeated), model.remove_all_agents, select_random_empty_cell under both strategies and "
         "placement into the cell it returned; the whole state view is observed after every operation. "
         "non-trivial = at least 3 operations of which one was rejected or one cell held >= 2 agents or a removal happened; "
         "distinct = by SHA1 of the history")
@@ -205,6 +205,11 @@ def _gen_ops(rng, sp, kinds, n_ops):
                 continue
             ops.append(["move2d", a, _rand_name(rng), rng.choice([1, 1, 1, 2, 2, 3, 4, 0, -1, 6])])
         elif r < 0.83:
+            if rng.random() < 0.08:
+                ops.append(["remove_all"])
+                removed.update(ids)
+                where.clear()
+                continue
             ops.append(["remove", a])
             removed.add(a)
             where.pop(a, None)
@@ -263,6 +268,9 @@ def _corner_cases():
         for nm in names[s0:s0 + 6]:
             ops += [["set", 1, 4], ["move2d", 1, nm, 1], ["move2d", 1, nm.upper(), 2]]
         out.append({"space": {"type": "moore", "dims": [3, 3], "torus": True, "capacity": None}, "agents": ["grid2d"], "seed": 7, "ops": ops})
+    # remove_all_agents with a never-placed FixedAgent in the middle, and with a re-placed removed agent
+    out.append({"space": {"type": "hex", "dims": [2, 2], "torus": False, "capacity": 2}, "agents": ["cell", "fixed", "cell", "fixed", "grid2d"], "seed": 8,
+                "ops": [["set", 1, 0], ["set", 3, 0], ["set", 4, 1], ["set", 5, 2], ["remove", 3], ["set", 3, 3], ["remove_all"], ["rand_empty", False], ["remove_all"]]})
     # networks and Voronoi: capacity, un-placing, empties under the list strategy on a full space
     out.append({"space": {"type": "network", "graph": GRAPHS[1], "capacity": 1}, "agents": ["cell", "cell", "fixed"], "seed": 5,
                 "ops": [["set", 1, 0], ["set", 2, 1], ["rand_empty", False], ["set", 3, 0], ["move_rel", 1, [1]], ["set", 1, None], ["place_rand", 3, False],
@@ -284,7 +292,7 @@ def gen_cases(rng, tier):
 def enumerate_cases(tier, broken=False):
     """targeted exhaustive sweep: tiny spaces of every type x capacity {None,1,2} x three agents
     (CellAgent, FixedAgent, Grid2DMovingAgent); after placing agent 1, EVERY sequence of 2 (thorough: 3)
-    operations from the alphabet {assign any agent to any cell / None, remove any agent, move_relative,
+    operations from the alphabet {assign any agent to any cell / None, remove any agent, remove_all_agents, move_relative,
     move(name, k)}, followed by both emptiness strategies."""
     spaces = [
         {"type": "moore", "dims": [1, 2], "torus": False},
@@ -310,6 +318,7 @@ def enumerate_cases(tier, broken=False):
                     alphabet.append(["set", a, c])
                 alphabet.append(["remove", a])
             alphabet.append(["set", 1, None])
+            alphabet.append(["remove_all"])
             if sp["type"] == "network":
                 alphabet.append(["move_rel", 1, [1]])
             elif sp["type"] == "voronoi":
@@ -409,7 +418,7 @@ def _classify(e):
     return 99
 
 
-SITE = {"set": "cell-setter", "move_to": "cell-setter", "move_rel": "move_relative", "move2d": "move2d", "remove": "remove",
+SITE = {"set": "cell-setter", "move_to": "cell-setter", "move_rel": "move_relative", "move2d": "move2d", "remove": "remove", "remove_all": "remove_all_agents",
         "rand_empty": "select_random_empty_cell", "place_rand": "place-random-empty"}
 
 
@@ -561,7 +570,7 @@ def run_impl(case):
     for i, op in enumerate(case["ops"]):
         kind = op[0]
         op_m = list(op)
-        a = op[1] if kind not in ("rand_empty",) else None
+        a = op[1] if kind not in ("rand_empty", "remove_all") else None
         # ---- applicability (total driver: the shrinker deletes arbitrary ops)
         na = False
         if a is not None and not (isinstance(a, int) and 1 <= a <= n):
@@ -626,6 +635,8 @@ def run_impl(case):
         elif kind == "remove":
             first = regd[a]
             must_succeed = True if (kinds[a - 1] != "fixed" or first) else None
+        elif kind == "remove_all":
+            must_succeed = True
         elif kind in ("rand_empty", "place_rand"):
             strat = bool(op[-1])
             have_empty = any(not occupants(j) for j in range(ncells))
@@ -649,6 +660,8 @@ def run_impl(case):
                 ag.move(str(op[2]), int(op[3]))
             elif kind == "remove":
                 ag.remove()
+            elif kind == "remove_all":
+                model.remove_all_agents()
             elif kind in ("rand_empty", "place_rand"):
                 if is_grid:
                     space._try_random = bool(op[-1])
@@ -703,7 +716,14 @@ def run_impl(case):
         else:
             obs.append(([0, rj] if kind == "rand_empty" else [0]) + cur)
             # the history's truth moves on
-            if kind == "remove":
+            if kind == "remove_all":
+                for b in range(1, n + 1):
+                    if regd[b]:
+                        regd[b] = False
+                        if kinds[b - 1] == "fixed" and loc[b] is not None:
+                            dangling.add(b)
+                        loc[b] = None
+            elif kind == "remove":
                 regd[a] = False
                 if kinds[a - 1] == "fixed" and loc[a] is not None:
                     dangling.add(a)
@@ -754,6 +774,8 @@ def coq_case(case):
             ops.append(f"Move2D {L.z(op[1])} {_codes(op[2])} {L.z(op[3])}")
         elif k == "remove":
             ops.append(f"Remove {L.z(op[1])}")
+        elif k == "remove_all":
+            ops.append("RemoveAll")
         elif k == "rand_empty":
             ops.append(f"RandomEmpty {L.b(op[1])} {_opt(op[2] if len(op) > 2 else None)}")
         elif k == "place_rand":
@@ -771,7 +793,7 @@ def op_kinds(case):
     out = []
     for op in case["ops"]:
         k = op[0]
-        if k in ("set", "remove") and isinstance(op[1], int) and 1 <= op[1] <= len(case["agents"]):
+        if k in ("set", "remove") and len(op) > 1 and isinstance(op[1], int) and 1 <= op[1] <= len(case["agents"]):
             k += "/" + case["agents"][op[1] - 1]
         if op[0] == "set" and op[2] is None:
             k += "/None"
@@ -783,7 +805,7 @@ def op_kinds(case):
 
 def nontrivial(case):
     obs = case.get("_obs", [])
-    return len(case["ops"]) >= 3 and any(o and o[0] == -1 for o in obs) or any(op[0] == "remove" for op in case["ops"])
+    return len(case["ops"]) >= 3 and any(o and o[0] == -1 for o in obs) or any(op[0] in ("remove", "remove_all") for op in case["ops"])
 
 
 LEVEL_TEXT = ("Machine-checked Coq theorems over a Gallina transcription of the cell setter, FixedCell setter, move_to, "
